@@ -52,7 +52,8 @@ def main():
     a = ap.parse_args()
     items = load_catalog()
     if a.only:
-        items = [i for i in items if a.only in i['patch']]
+        pats = a.only.split(',')
+        items = [i for i in items if any(p in i['patch'] for p in pats)]
     results = []
     ok_all = True
     for it in items:
@@ -106,9 +107,22 @@ def main():
             run(['git', '-C', REPO, 'worktree', 'prune'])
     os.makedirs(os.path.join(ROOT, 'audit'), exist_ok=True)
     head = run(['git', '-C', REPO, 'rev-parse', '--short', 'HEAD']).stdout.strip()
-    if not a.only:
-        with open(os.path.join(ROOT, 'audit', 'selftest_mutants.json'), 'w') as f:
-            json.dump({'repo_commit': head, 'results': results}, f, indent=1)
+    # results are merged into the committed audit file, keyed by patch (a partial run updates its entries only)
+    path = os.path.join(ROOT, 'audit', 'selftest_mutants.json')
+    merged = {}
+    if os.path.exists(path):
+        try:
+            for e in json.load(open(path)).get('results', []):
+                merged[e['patch']] = e
+        except Exception:
+            merged = {}
+    vh = run(['git', '-C', ROOT, 'rev-parse', '--short', 'HEAD']).stdout.strip()
+    for e in results:
+        e['verif_commit'] = vh
+        merged[e['patch']] = e
+    known = set(i['patch'] for i in load_catalog())
+    with open(path, 'w') as f:
+        json.dump({'repo_commit': head, 'results': [merged[k] for k in sorted(merged) if k in known]}, f, indent=1)
     return 0 if ok_all else 1
 
 
